@@ -218,7 +218,8 @@ def oracle(ctx, widen=1):
             if np.abs(U.T @ U - np.eye(3)).max() > 1e-8 or abs(np.linalg.det(U) - 1) > 1e-8:
                 bad = f"after {k}: U is not a proper rotation (max|U^T U - 1| = {np.abs(U.T @ U - np.eye(3)).max():.2e}, det = {np.linalg.det(U):.6f})"
             elif ub.crystal is not None and (ub.UB is None or np.abs(np.asarray(ub.UB) - U @ ub.crystal.B).max() > 1e-8):
-                bad = f"after {k}: stored UB differs from U.B(current lattice) by {np.abs(np.asarray(ub.UB) - U @ ub.crystal.B).max():.3e}"
+                bad = f"after {k}: stored UB " + ("is None although U and a lattice exist" if ub.UB is None else
+                                                 f"differs from U.B(current lattice) by {np.abs(np.asarray(ub.UB) - U @ ub.crystal.B).max():.3e}")
         if not bad and k == "setMiscut" and out == "ok":
             axis = info["axis"] if info["axis"] is not None else (0, 1, 0)
             want = rodrigues(axis, radians(info["angle"]))
